@@ -490,7 +490,7 @@ func (e *Exec) assignTo(st *State, l ast.Expr, v Term, t types.Type) {
 // modifies clause, or hit memory allocated during this call.
 func (e *Exec) checkFrame(st *State, key string, ref Term, idx Term, isElem bool, p token.Pos) {
 	if e.dry > 0 {
-		e.dryStores = append(e.dryStores, dryStore{key, ref})
+		e.dryStores = append(e.dryStores, dryStore{key: key, ref: ref})
 	}
 	if e.noFrame || e.contract == nil || e.depth < 0 {
 		return
@@ -695,8 +695,9 @@ func (e *Exec) execTypeSwitch(st *State, s *ast.TypeSwitchStmt, label string) *S
 // loops
 
 type dryStore struct {
-	key string
-	ref Term
+	key    string
+	ref    Term
+	coarse bool // the written cells are not "row ref of the map" (fields of element objects of an array): no frame
 }
 
 type snapshot struct {
@@ -922,8 +923,12 @@ func (e *Exec) loopHavoc(st *State, spec *LoopSpec, vars []*types.Var, run func(
 			k = &kr{}
 			per[s.key] = k
 		}
-		if e.freshRefs[s.ref.S] {
-			continue // allocated inside the loop: covered by the allocation frontier
+		if s.coarse {
+			k.coarse = true
+			continue
+		}
+		if e.freshRefs[s.ref.S] && symIndex(s.ref.S) > marker {
+			continue // allocated inside the loop body (during the dry run): covered by the allocation frontier
 		}
 		if e.stable(s.ref.S, marker, modKeys, map[string]bool{}) {
 			dup := false
@@ -995,6 +1000,19 @@ func (e *Exec) loopHavoc(st *State, spec *LoopSpec, vars []*types.Var, run func(
 		body := Implies(And(conds...), Eq(Select(nh, r, innerSort(m)), Select(old, r, innerSort(m))))
 		e.assumps = append(e.assumps, fmt.Sprintf("(assert (forall ((r!f Int)) (! %s :pattern (%s))))", body.S, Select(nh, r, innerSort(m)).S))
 	}
+}
+
+// symIndex: the creation index n of a generated symbol name!n (-1 if the text is not such a symbol).
+func symIndex(sym string) int {
+	i := strings.LastIndexByte(sym, '!')
+	if i < 0 {
+		return -1
+	}
+	n, err := strconv.Atoi(sym[i+1:])
+	if err != nil {
+		return -1
+	}
+	return n
 }
 
 func innerSort(m heapMeta) Sort {
